@@ -314,7 +314,16 @@ impl<'a> B<'a> {
                 }
                 _ => self.lit(Ty::Int),
             },
-            Ty::Float => match self.c.below(4) {
+            Ty::Float => match self.c.below(5) {
+                // the dividend reassigns the (possibly constant, non-zero) divisor variable to 0
+                // before the divisor is read: the division can fail and must not be accepted unhandled
+                4 if self.pure == 0 && !self.vars_of(Ty::Int).is_empty() => {
+                    let ints = self.vars_of(Ty::Int);
+                    let v = ints[self.c.below(ints.len())].clone();
+                    let zero = if self.c.chance(2, 3) { E::Lit(TV::Int(0)) } else { self.lit(Ty::Int) };
+                    let dividend = E::Block(vec![E::Assign(Target::Var(v.clone(), vec![]), Box::new(zero)), self.lit(Ty::Int)]);
+                    E::Bin(BinOp::Div, Box::new(dividend), Box::new(E::Var(v, vec![])))
+                }
                 0 => E::Bin(BinOp::Add, Box::new(self.expr(Ty::Float, d1)), Box::new(self.expr(Ty::Int, d1))),
                 1 => E::Bin(BinOp::Div, Box::new(self.expr(Ty::Int, d1)), Box::new(E::Lit(TV::Int(2)))),
                 2 => call1("to_float", self.arg(Ty::Int, d1)),
